@@ -179,7 +179,7 @@ func (g *bankGen) decorate(f *Fn) {
 			}
 		}
 		if g.pct(g.bk.PFaultKind, "faultkind") {
-			f.EK = g.pick(2, "ek")
+			f.EK = g.pick(3, "ek")
 			f.PK = g.pick(6, "pk")
 		}
 	}
